@@ -202,6 +202,105 @@ theorem pg_dump_same_type (typ : Nat) (b kk : Bytes) (h : (toDbKey typ b none).i
     simp [toDbKey] at h
     simp [h.1]
 
+/-! ### filesystem listing: only entries under the requested prefix and type, with the value a Get returns -/
+
+/-- the rows the filesystem listing continues with all match the requested prefix under their own type byte -/
+theorem fs_dumpRest_confined (enc : Option (Bytes → Bytes)) (dec : Option (Bytes → Option Bytes)) (c : DbCtx)
+    (ctxLang : Option Bytes) (files : Store) (mp : Bytes) (names : List Bytes) :
+    ∀ p ∈ Fs.dumpRest enc dec c ctxLang files mp names, ∃ name ∈ names,
+      Fs.decodeKey dec c (Fs.elementKey name) = .ok p.1 ∧
+      mp.isPrefixOf (((Fs.elementKey name).headD 0) :: p.1) = true ∧
+      Fs.get enc c ctxLang files p.1 = .ok p.2 := by
+  induction names with
+  | nil => intro p hp; simp [Fs.dumpRest] at hp
+  | cons name rest ih =>
+    intro p hp
+    unfold Fs.dumpRest at hp
+    simp only at hp
+    cases hd : Fs.decodeKey dec c (Fs.elementKey name) with
+    | ok kk =>
+      rw [hd] at hp
+      simp only at hp
+      by_cases hb : mp.isPrefixOf (((Fs.elementKey name).headD 0) :: kk) = true
+      · rw [if_pos hb] at hp
+        cases hg : Fs.get enc c ctxLang files kk with
+        | ok vv =>
+          rw [hg] at hp
+          simp only [List.mem_cons] at hp
+          rcases hp with rfl | hp
+          · exact ⟨name, by simp, hd, hb, hg⟩
+          · obtain ⟨n', h1, h2⟩ := ih p hp
+            exact ⟨n', by simp [h1], h2⟩
+        | err e => rw [hg] at hp; simp at hp
+        | panic e => rw [hg] at hp; simp at hp
+      · rw [if_neg hb] at hp; simp at hp
+    | err e => rw [hd] at hp; simp at hp
+    | panic e => rw [hd] at hp; simp at hp
+theorem fs_dump_first_confined (enc : Option (Bytes → Bytes)) (dec : Option (Bytes → Option Bytes)) (c : DbCtx)
+    (ctxLang : Option Bytes) (files : Store) (mp : Bytes) (names : List Bytes) (l : List (Bytes × Bytes))
+    (h : Fs.dump.first enc dec c ctxLang files mp names = .ok l) :
+    ∀ p ∈ l, ∃ name ∈ names,
+      Fs.decodeKey dec c (Fs.elementKey name) = .ok p.1 ∧
+      mp.isPrefixOf (((Fs.elementKey name).headD 0) :: p.1) = true ∧
+      Fs.get enc c ctxLang files p.1 = .ok p.2 := by
+  induction names with
+  | nil => simp [Fs.dump.first] at h
+  | cons name rest ih =>
+    unfold Fs.dump.first at h
+    simp only at h
+    by_cases hlen : mp.length > (Fs.elementKey name).length
+    · rw [if_pos hlen] at h
+      intro p hp
+      obtain ⟨n', h1, h2⟩ := ih h p hp
+      exact ⟨n', by simp [h1], h2⟩
+    · rw [if_neg hlen] at h
+      cases hd : Fs.decodeKey dec c (Fs.elementKey name) with
+      | ok kk =>
+        rw [hd] at h
+        simp only at h
+        by_cases hb : mp.isPrefixOf (((Fs.elementKey name).headD 0) :: kk) = true
+        · rw [if_pos hb] at h
+          cases hg : Fs.get enc c ctxLang files kk with
+          | ok vv =>
+            rw [hg] at h
+            simp only [Res.ok.injEq] at h
+            subst h
+            intro p hp
+            simp only [List.mem_cons] at hp
+            rcases hp with rfl | hp
+            · exact ⟨name, by simp, hd, hb, hg⟩
+            · obtain ⟨n', h1, h2⟩ := fs_dumpRest_confined enc dec c ctxLang files mp rest p hp
+              exact ⟨n', by simp [h1], h2⟩
+          | err e => rw [hg] at h; simp at h
+          | panic e => rw [hg] at h; simp at h
+        · rw [if_neg hb] at h
+          intro p hp
+          obtain ⟨n', h1, h2⟩ := ih h p hp
+          exact ⟨n', by simp [h1], h2⟩
+      | err e =>
+        rw [hd] at h
+        intro p hp
+        obtain ⟨n', h1, h2⟩ := ih h p hp
+        exact ⟨n', by simp [h1], h2⟩
+      | panic e =>
+        rw [hd] at h
+        intro p hp
+        obtain ⟨n', h1, h2⟩ := ih h p hp
+        exact ⟨n', by simp [h1], h2⟩
+
+/-- **filesystem listing**: every entry listed is a file of the directory whose name decodes, in the current session,
+to the key shown, matches the requested prefix under the type byte of the listing, and the value shown is what a Get of
+that key returns now -/
+theorem fs_dump_confined (enc : Option (Bytes → Bytes)) (dec : Option (Bytes → Option Bytes)) (c : DbCtx)
+    (ctxLang : Option Bytes) (files : Store) (key : Bytes) (l : List (Bytes × Bytes))
+    (h : Fs.dump enc dec c ctxLang files key = .ok l) :
+    ∀ p ∈ l, ∃ name ∈ (Fs.sortedFiles files).map (·.1),
+      Fs.decodeKey dec c (Fs.elementKey name) = .ok p.1 ∧
+      (UInt8.ofNat c.pfx :: key).isPrefixOf (((Fs.elementKey name).headD 0) :: p.1) = true ∧
+      Fs.get enc c ctxLang files p.1 = .ok p.2 := by
+  unfold Fs.dump at h
+  exact fs_dump_first_confined enc dec c ctxLang files _ _ l h
+
 /-- before the fix the listing ran on into the rows of higher data types: the USERDATA-less type 1 listing with the empty
 session over a table that holds session `a`'s STATE record (type 16) now lists nothing -/
 example : Pg.dump { pfx := 1 } [([16, 97, 46, 99], [115])] [102] = .err "notfound" := by decide
